@@ -877,6 +877,15 @@ func (a *E3) calleeNames(fn *ssa.Function) []string {
 						}
 					}
 				}
+				// a declared function of the package handed around as a value may be called by whoever receives it
+				for _, op := range in.Operands(nil) {
+					if op == nil || *op == nil {
+						continue
+					}
+					if g, ok := (*op).(*ssa.Function); ok && g.Parent() == nil && a.inPkg(g) && a.sum[g] != nil {
+						set[a.FuncName(g)] = true
+					}
+				}
 			}
 		}
 		for _, an := range f.AnonFuncs {
